@@ -62,3 +62,45 @@ Proof.
   split; [|repeat split].
   intros a col H. destruct a as [|[|a]], col as [|col]; cbn in *; try done.
 Qed.
+
+(* ---------------------------------------------------------------- whole programs *)
+From Gecs Require Import ExtrBits BorrowSafe.
+Local Open Scope nat_scope.
+
+(** No execution of any runtime-borrow program - any nesting of guards, ecs_find_borrow! and
+    ecs_iter_borrow! closures, clones, releases and panics - ever holds aliasing guards: every guard
+    list in force at any point, in the program or in a closure body at any depth ([in_force]), is one
+    RefCell can be in: a mutable guard is alone on its column.  The harness starts from no guards. *)
+Theorem C11_no_execution_holds_aliasing_guards : forall d qs w issued outer frame cmds H,
+  in_force d qs w issued outer frame cmds H -> wf (outer ++ frame) -> wf H.
+Proof. exact in_force_wf. Qed.
+
+Theorem C11_a_program_never_aliases : forall d qs w issued prog H, in_force d qs w issued [] [] prog H -> wf H.
+Proof. exact program_never_aliases. Qed.
+
+(** The guard lists of [in_force] are the ones the executable model (which is compared with the
+    implementation) continues with: after a command that is not a panic, [bexec] runs the rest of the list
+    in the frame [frame_after]; an ecs_find_borrow! body runs in a fresh frame under exactly the guards
+    [acquire_all] grants. *)
+Theorem C11_the_model_continues_in_that_frame : forall fuel d qs w issued outer frame cmd rest, cmd <> BPn ->
+  exists recs, bexec (S fuel) d qs w issued outer frame (cmd :: rest) =
+    (recs ++ fst (bexec fuel d qs w issued outer (frame_after d w issued outer frame cmd) rest),
+     snd (bexec fuel d qs w issued outer (frame_after d w issued outer frame cmd) rest)).
+Proof. exact bexec_step. Qed.
+
+Theorem C11_a_find_body_runs_under_the_granted_guards : forall fuel d qs w issued outer frame q k body rest h plan a acc s i held' r,
+  issued !! k = Some h -> qs !! q ≫= query_plan d = Some plan ->
+  find_arch (wd_archs d) (key_arch_id (fst h)) = Some a -> plan !! a = Some (Some acc) -> w !! a = Some s ->
+  resolve_for (Config false false false) KEnt s h = ROk (Some i) ->
+  acquire_all (outer ++ frame) (acc_guards a acc) = Some held' -> closure_record s i acc = Some r ->
+  exists after, fst (bexec (S fuel) d qs w issued outer frame (BFb q k body :: rest)) =
+                brec r ++ fst (bexec fuel d qs w issued held' [] body) ++ after.
+Proof. exact bexec_find_body. Qed.
+
+(** Non-vacuity: in a one-archetype world, after a granted mutable slice guard the second command runs
+    under that guard (and is refused: see C11_nonvacuous for the conflict rule). *)
+Definition c11_decl : wdecl := WD [DA 0%N 0 [DC 0%N 0]] [].
+Definition c11_world : world := match new_world (wd_archs c11_decl) [2%nat] with Ok w _ => w | _ => [] end.
+Example C11_in_force_instance :
+  in_force c11_decl [] c11_world [] [] [] [BHs 0 0 true; BHs 0 0 false] ([] ++ [(0, 0, true)]).
+Proof. apply if_rest; [done|]. exact (if_here c11_decl [] c11_world [] [] [(0, 0, true)] (BHs 0 0 false) []). Qed.
